@@ -5,6 +5,8 @@
 //! operations without any cache: the oracle is `cached result == uncached result`.
 //!
 //! Modes:  `c19 FILE`        one case per line (format below), one result line per case
+//!         `c19 SEEDS trace`   the calls of real commands on the cached handle as an op-sequence case line
+//!         `c19 SEEDS readers` the generic readers on the Repository API (see `readers_case`)
 //!         `c19 SEEDS e2e`   one seed per line: identical backup/forget/prune/check histories
 //!                           with no_cache = true / false (see `e2e_case`)
 //!
@@ -492,9 +494,238 @@ fn e2e_inner(line: &str) -> anyhow::Result<String> {
     ))
 }
 
+// ------------------------------------------------------------------------------- readers
+// The generic readers on the real Repository API.  (1) For each reader: is the file type
+// listed below the cache while it runs (dynamic cross-check of the table regenerated from the
+// source)?  (2) A snapshot that another (uncached) handle removed, still in the cache of the
+// cached handle (re-planted before every call): does the reader return the same outcome
+// through the cached handle as through a handle without cache?
+// Line: `seed`.  Result: `name=<listed 0/1>:<cached ok/err>:<uncached ok/err>` ...
+fn readers_case(line: &str) -> String {
+    match std::panic::catch_unwind(|| readers_inner(line)) {
+        Ok(Ok(s)) => s,
+        Ok(Err(e)) => format!("error {e:#}").replace('\n', " "),
+        Err(_) => "panic".into(),
+    }
+}
+
+fn readers_inner(line: &str) -> anyhow::Result<String> {
+    use rustic_core::repofile::{IndexFile, SnapshotFile, SnapshotId};
+    use rustic_core::RepositoryOptions;
+    use verif_harness::e2e::*;
+    let mut t = Toks::new(line);
+    let mut r = SplitMix(t.u());
+    let store = mem();
+    let (repo, key) = init_repo(store.clone(), None, &small_pack_config(12_000, 1_500), &repo_opts())?;
+    drop(repo);
+    let rec = RecBackend::new(store.clone(), "below-cache");
+    rec.set_plan(FaultPlan { record_reads: true, ..FaultPlan::default() });
+    let cdir = tempfile::tempdir()?;
+    let mut copts = RepositoryOptions::default();
+    copts.no_cache = false;
+    copts.cache_dir = Some(cdir.path().to_path_buf());
+    let src = tempfile::tempdir()?;
+    let tp = TreeParams { max_entries: 8, max_depth: 2, max_file: 20_000, odd_names: false, symlinks: false, hardlinks: false };
+    materialize(src.path(), &gen_tree(&mut r, &tp))?;
+    let mut snaps = Vec::new();
+    for k in 0..3 {
+        std::fs::write(src.path().join("extra"), Content::Random { seed: r.next(), len: 3000 + k }.bytes())?;
+        let repo = open_repo(rec.clone(), None, &key, &copts)?;
+        let (_r, snap) = backup_dir(repo, src.path(), "src", None)?;
+        snaps.push(snap);
+    }
+    let root = std::fs::read_dir(cdir.path())?.flatten().map(|e| e.path()).find(|p| p.is_dir()).ok_or_else(|| anyhow::anyhow!("no cache dir"))?;
+    let victim = snaps[0].id;
+    let vhex = victim.to_hex().to_string();
+    let vpath = root.join("snapshots").join(&vhex[..2]).join(&vhex);
+    let vbytes = std::fs::read(&vpath)?; // written through by the backup
+    let other = snaps[2].id.to_hex().to_string();
+    // another process forgets the first snapshot
+    open_repo(store.clone(), None, &key, &repo_opts())?.delete_snapshots(&[victim])?;
+
+    type Call = Box<dyn Fn(RepoOpen) -> bool>;
+    let full = vhex.clone();
+    let pre = vhex[..10].to_string();
+    let calls: Vec<(&str, FileType, Call)> = vec![
+        ("StreamAll", FileType::Snapshot, Box::new(|rp| rp.stream_files::<SnapshotFile>().map(|it| it.filter(Result::is_ok).count()).is_ok())),
+        ("StreamList", FileType::Snapshot, { let v = victim; Box::new(move |rp| rp.stream_files_list::<SnapshotFile>(vec![v]).map(|it| it.filter(Result::is_ok).count() == 1).unwrap_or(false)) }),
+        ("GetFile", FileType::Snapshot, { let v = victim; Box::new(move |rp| rp.get_file::<SnapshotFile>(&v).is_ok()) }),
+        ("FindIdsFull", FileType::Snapshot, { let f = full.clone(); Box::new(move |rp| rp.find_ids::<SnapshotId, _>(&[f.clone()]).map(|i| i.count() == 1).unwrap_or(false)) }),
+        ("FindIdsPrefix", FileType::Snapshot, { let f = pre.clone(); Box::new(move |rp| rp.find_ids::<SnapshotId, _>(&[f.clone()]).map(|i| i.count() == 1).unwrap_or(false)) }),
+        ("SnapFromStrLatest", FileType::Snapshot, Box::new(|rp| rp.get_snapshot_from_str("latest", |_| true).is_ok())),
+        ("SnapFromStrPrefix", FileType::Snapshot, { let f = pre.clone(); Box::new(move |rp| rp.get_snapshot_from_str(&f, |_| true).is_ok()) }),
+        ("SnapFromStrId", FileType::Snapshot, { let f = full.clone(); Box::new(move |rp| rp.get_snapshot_from_str(&f, |_| true).is_ok()) }),
+        ("SnapFromStrsLatest", FileType::Snapshot, { let f = full.clone(); Box::new(move |rp| rp.get_snapshots_from_strs(&["latest".to_string(), f.clone()], |_| true).map(|v| v.iter().all(|s| s.id != SnapshotId::default())).unwrap_or(false)) }),
+        ("SnapFromStrsPrefix", FileType::Snapshot, { let (f, o) = (pre.clone(), other.clone()); Box::new(move |rp| rp.get_snapshots_from_strs(&[o[..10].to_string(), f.clone()], |_| true).is_ok()) }),
+        ("SnapFromStrsIdsOnly", FileType::Snapshot, { let (f, o) = (full.clone(), other.clone()); Box::new(move |rp| rp.get_snapshots_from_strs(&[o.clone(), f.clone()], |_| true).map(|v| v.len() == 2).unwrap_or(false)) }),
+        ("SnapUpdateFromIdsFull", FileType::Snapshot, { let f = full.clone(); Box::new(move |rp| rp.get_snapshots(&[f.clone()]).map(|v| v.len() == 1).unwrap_or(false)) }),
+        ("SnapUpdateFromIdsPrefix", FileType::Snapshot, { let f = pre.clone(); Box::new(move |rp| rp.get_snapshots(&[f.clone()]).map(|v| v.len() == 1).unwrap_or(false)) }),
+        ("SnapUpdateFromBackend", FileType::Snapshot, { let v = victim; Box::new(move |rp| rp.get_all_snapshots().map(|l| l.iter().any(|s| s.id == v)).unwrap_or(false)) }),
+        ("IndexNew", FileType::Index, Box::new(|rp| rp.to_indexed().is_ok())),
+        ("IndexOnlyFullTrees", FileType::Index, Box::new(|rp| rp.to_indexed_ids().is_ok())),
+        ("CatFileFull", FileType::Snapshot, { let f = full.clone(); Box::new(move |rp| rp.cat_file(FileType::Snapshot, &f).is_ok()) }),
+        ("CatFilePrefix", FileType::Snapshot, { let f = pre.clone(); Box::new(move |rp| rp.cat_file(FileType::Snapshot, &f).is_ok()) }),
+        // the command level: backup with the removed snapshot as explicit parent (from_strs, full ids only):
+        // "ok" = the parent was found and used
+        ("BackupExplicitParent", FileType::Snapshot, {
+            let (f, d) = (full.clone(), src.path().to_path_buf());
+            Box::new(move |rp| {
+                let mut po = rustic_core::ParentOptions::default();
+                po.parents = vec![f.clone()];
+                let bo = rustic_core::BackupOptions::default().parent_opts(po);
+                backup_dir(rp, &d, "src", Some(bo)).map(|(_, sn)| !sn.get_parents().is_empty()).unwrap_or(false)
+            })
+        }),
+    ];
+    let _ = IndexFile::default();
+    let mut out = Vec::new();
+    for (name, tpe, call) in &calls {
+        // the removed snapshot is (again) in the cache
+        std::fs::create_dir_all(vpath.parent().unwrap())?;
+        std::fs::write(&vpath, &vbytes)?;
+        let cached = open_repo(rec.clone(), None, &key, &copts)?;
+        let _ = rec.take_log();
+        let a = call(cached);
+        let listed = rec.take_log().iter().any(|o| o.kind == OpKind::List && o.tpe == *tpe);
+        let b = call(open_repo(store.clone(), None, &key, &repo_opts())?);
+        let still = vpath.exists();
+        out.push(format!("{name}={}:{}:{}:{}", listed as u8, if a { "ok" } else { "err" }, if b { "ok" } else { "err" }, still as u8));
+    }
+    Ok(format!("ok {}", out.join(" ")))
+}
+
+// ------------------------------------------------------------------------------- trace
+// The calls the real commands make on the cached handle: the repository is opened (no_cache)
+// over  RecBackend -> CachedBackend (verif hook) -> store, so the recording wrapper sees every
+// ReadBackend / WriteBackend call that reaches the cache layer.  The calls on snapshot and
+// index files are printed as a case line of the op-sequence format (ids renumbered, data
+// empty); between two commands "anything may have happened" (a file planted per type).  The
+// extracted Model.disciplined is evaluated on it by the check.
+// Line: `seed`.  Result: `ok <case line of the commands> ## <case line ending in an explicit-id read>`.
+fn trace_case(line: &str) -> String {
+    match std::panic::catch_unwind(|| trace_inner(line)) {
+        Ok(Ok(s)) => s,
+        Ok(Err(e)) => format!("error {e:#}").replace('\n', " "),
+        Err(_) => "panic".into(),
+    }
+}
+
+fn trace_inner(line: &str) -> anyhow::Result<String> {
+    use rustic_core::{CheckOptions, LimitOption, PruneOptions};
+    use verif_harness::e2e::*;
+    let mut t = Toks::new(line);
+    let mut r = SplitMix(t.u());
+    let store = mem();
+    let (repo, key) = init_repo(store.clone(), None, &small_pack_config(12_000, 1_500), &repo_opts())?;
+    drop(repo);
+    let cdir = tempfile::tempdir()?;
+    let cache = hook::new_cache(id_from_u64(78), cdir.path().to_path_buf())?;
+    let cached = hook::cached_backend(store.clone(), &cache);
+    let rec = RecBackend::new(cached, "above-cache");
+    rec.set_plan(FaultPlan { record_reads: true, ..FaultPlan::default() });
+    let src = tempfile::tempdir()?;
+    let tp = TreeParams { max_entries: 8, max_depth: 2, max_file: 20_000, odd_names: false, symlinks: false, hardlinks: false };
+    materialize(src.path(), &gen_tree(&mut r, &tp))?;
+
+    let mut ids: BTreeMap<Id, u64> = BTreeMap::new();
+    let mut ops: Vec<String> = Vec::new();
+    let mut names: Vec<String> = Vec::new();
+    let mut flush = |ops: &mut Vec<String>, ids: &mut BTreeMap<Id, u64>, log: Vec<Op>| {
+        for o in log {
+            let tn = tnum(o.tpe);
+            if tn != 1 && tn != 3 {
+                continue; // snapshot and index files only
+            }
+            let n = ids.len() as u64 + 1;
+            let i = *ids.entry(o.id).or_insert(n);
+            match o.kind {
+                OpKind::List => ops.push(format!("4 {tn}")),
+                OpKind::ReadFull => ops.push(format!("0 {tn} {i}")),
+                OpKind::ReadPartial => ops.push(format!("1 {tn} {i} {} {} {}", o.cacheable as u8, o.offset, o.len.max(1))),
+                OpKind::Write => ops.push(format!("2 {tn} {i} {} {} 0", o.cacheable as u8, o.ok as u8)),
+                OpKind::Remove => ops.push(format!("3 {tn} {i} {}", o.cacheable as u8)),
+                _ => {}
+            }
+        }
+    };
+    let reset = |ops: &mut Vec<String>| {
+        ops.push("8 3 9999 0".into());
+        ops.push("8 1 9999 0".into());
+    };
+    let open = || open_repo(rec.clone(), None, &key, &repo_opts());
+
+    // backup, backup with parent, forget, prune, check, latest snapshot
+    for k in 0..3 {
+        std::fs::write(src.path().join("extra"), Content::Random { seed: r.next(), len: 3000 + k }.bytes())?;
+        let _ = rec.take_log();
+        let _ = backup_dir(open()?, src.path(), "src", None)?;
+        flush(&mut ops, &mut ids, rec.take_log());
+        reset(&mut ops);
+        names.push("backup".into());
+    }
+    {
+        let repo = open()?;
+        let _ = rec.take_log();
+        let mut snaps = repo.get_all_snapshots()?;
+        snaps.sort_by(|x, y| x.time.cmp(&y.time));
+        let rm: Vec<_> = snaps[..1].iter().map(|s| s.id).collect();
+        repo.delete_snapshots(&rm)?;
+        flush(&mut ops, &mut ids, rec.take_log());
+        reset(&mut ops);
+        names.push("forget".into());
+    }
+    {
+        let repo = open()?;
+        let _ = rec.take_log();
+        let mut p = PruneOptions::default();
+        p.keep_pack = rustic_core::jiff::Span::new();
+        p.keep_delete = rustic_core::jiff::Span::new();
+        p.max_unused = LimitOption::Size(bytesize::ByteSize(0));
+        p.instant_delete = true;
+        let plan = repo.prune_plan(&p)?;
+        repo.prune(&p, plan)?;
+        flush(&mut ops, &mut ids, rec.take_log());
+        reset(&mut ops);
+        names.push("prune".into());
+    }
+    {
+        let repo = open()?;
+        let _ = rec.take_log();
+        let ok = repo.check(CheckOptions::default().read_data(true))?.is_ok().is_ok();
+        anyhow::ensure!(ok, "check reports errors");
+        flush(&mut ops, &mut ids, rec.take_log());
+        reset(&mut ops);
+        names.push("check".into());
+    }
+    let latest = {
+        let repo = open()?;
+        let _ = rec.take_log();
+        let sn = repo.get_snapshot_from_str("latest", |_| true)?;
+        let _ = repo.get_snapshot_from_str(&sn.id.to_hex().as_str()[..12], |_| true)?;
+        flush(&mut ops, &mut ids, rec.take_log());
+        names.push("snapshot-by-latest-and-prefix".into());
+        sn
+    };
+    let good = format!("{} {}", ops.len(), ops.join(" "));
+    // negative control: after anything may have happened, a snapshot read by its full id
+    reset(&mut ops);
+    {
+        let repo = open()?;
+        let _ = rec.take_log();
+        let _ = repo.get_snapshots(&[latest.id.to_hex().to_string()])?;
+        flush(&mut ops, &mut ids, rec.take_log());
+    }
+    let bad = format!("{} {}", ops.len(), ops.join(" "));
+    Ok(format!("ok {} ## {good} ## {bad}", names.join(",")))
+}
+
 fn main() {
     let args: Vec<String> = std::env::args().collect();
-    if args.len() > 2 && args[2] == "e2e" {
+    if args.len() > 2 && args[2] == "trace" {
+        for_each_case(|l| trace_case(l));
+    } else if args.len() > 2 && args[2] == "readers" {
+        for_each_case(|l| readers_case(l));
+    } else if args.len() > 2 && args[2] == "e2e" {
         for_each_case(|l| e2e_case(l));
     } else {
         for_each_case(|l| ops_case(l));
